@@ -115,3 +115,31 @@ def match_known(spec, match):
         elif cur != v:
             return False
     return True
+
+
+LAYOUTS = ("array", "list", "fortran", "strided", "transposed", "readonly", "int_if_integral")
+
+
+def present(a, how, fill=7777.0):
+    """The same numbers handed over in another legitimate form: list, Fortran-ordered copy, every-second-element view of a longer array,
+    transposed view of the transposed copy, read-only array, integer dtype when every entry is integral. Values are never changed."""
+    a = np.array(a, dtype="double")
+    if how == "list":
+        return a.tolist()
+    if how == "fortran":
+        return np.asfortranarray(a)
+    if how == "strided":
+        big = np.full((2 * a.shape[0],) + a.shape[1:], fill) if a.ndim else np.full(2, fill)
+        if a.ndim:
+            big[::2] = a
+            return big[::2]
+        return a
+    if how == "transposed" and a.ndim >= 2:
+        return np.array(a.T, order="C").T  # logical values equal, memory order reversed
+    if how == "readonly":
+        b = a.copy()
+        b.setflags(write=False)
+        return b
+    if how == "int_if_integral" and a.size and np.all(a == np.rint(a)) and np.abs(a).max() < 2 ** 31:
+        return a.astype(int).tolist()
+    return a
